@@ -55,11 +55,12 @@ def check(ctx, tier):
     mask_rule(ctx, tk)
     pack_rules(ctx, tk)
     window_mask_order(ctx, tk)
+    offset_contract(ctx, tk)
     fs = [cls.methods[n] for n in ("pack", "unpack", "__getitem__", "sliding_window")]
     tk.purity("C13.e", fs, "packing and reading do not modify the caller's arrays or the packed data", content_only=True)
     W.report(ctx, tk, "C13.f", fs + [cls.methods["__init__"]])
     from .. import hazards as _hz, scopes as _sc
-    _hz.generic(ctx, tk, "C13.z", _sc.scope(tk, "C13"))
+    _hz.generic(ctx, tk, "C13.z", _sc.scope(tk, "C13", depth=2))
     return {}
 
 
@@ -204,3 +205,30 @@ def window_mask_order(ctx, tk):
         bo = dict(c.a[2]).get("bitorder")
         ctx.decide("C13.b", f, "entries are unpacked least-significant first (the order pack() shifts them in)", True if (bo is not None and is_const(bo, "little")) else False,
                    "np.unpackbits defaults to bitorder='big': the entries of every byte come back reversed", node=c.node, key="bitorder", engine="KB")
+
+
+def offset_contract(ctx, tk):
+    """the entry offset of a BitArray is honoured by the element reader only; the bulk decoders (unpack,
+    sliding_window) start at position 0 of the registers.  That is consistent as long as every BitArray is
+    constructed with offset 0: a construction site passing another offset needs decoders that read it"""
+    init = ctx.func("bitarray.BitArray.__init__")
+    if "offset" not in init.params:
+        ctx.holds("C13.f", init, "BitArray has no entry offset", key="offset", engine="E7")
+        return
+    pos = init.params.index("offset") - 1
+    decoders = [ctx.func("bitarray.BitArray." + n) for n in ("unpack", "sliding_window")]
+    blind = [d for d in decoders if not any(isinstance(x, ast.Attribute) and x.attr == "_offset" for x in ast.walk(d.node))]
+    what = "every BitArray is constructed with the offset its decoders assume (unpack / sliding_window decode from position 0)"
+    n = 0
+    for cfa, c in tk.R.call_sites(init):
+        arg = dict(c.a[2]).get("offset", c.a[1][pos] if len(c.a[1]) > pos else None)
+        n += 1
+        if arg is None or all(is_const(a, 0) for a in alts(arg)):
+            ctx.holds("C13.f", cfa.func, what, node=c.node, key="offset:%s" % cfa.func.name, engine="E7")
+        elif blind:
+            ctx.violated("C13.f", cfa.func, what, "`%s` builds a BitArray whose entries start at offset %s, but %s never read the offset: they decode the "
+                         "source's entries from position 0" % (c, arg, ", ".join(d.name for d in blind)), node=c.node, key="offset:%s" % cfa.func.name, engine="E7")
+        else:
+            ctx.holds("C13.f", cfa.func, what, node=c.node, key="offset:%s" % cfa.func.name, engine="E7")
+    if not n:
+        ctx.unknown("C13.f", init, what, "no construction site resolved", key="offset", engine="E7")
